@@ -34,8 +34,21 @@ Flag(case, clauses, line) ==
 (* Behind the compaction adapter the carried indices are the subject of   *)
 (* C11 (and of known finding KF-1), not of the hook-protocol properties:   *)
 (* C10 demands exact carried indices only through Replace alone.           *)
-NotDemanded(m) == IF m.stack \in {"compact", "compact_replace", "compact_replace_nr"}
+NotDemanded(m) == IF m.stack \in {"compact", "compact_replace", "compact_replace_nr", "compact_replace_ref"}
                   THEN {"carried"} ELSE {}
+
+(* Adapters fed with a script (family A, C10), judged per delivered call:   *)
+(* through Replace alone the carried indices are exactly the cursors; and   *)
+(* through both adapters over a sink that overrides `replace` every change  *)
+(* run arrives as ONE call (the normal form of C09 at the hook level).      *)
+AdapterViol(m, st, e) ==
+  IF "in" \notin DOMAIN m \/ st.broken \/ e.ev \notin {"delete", "insert", "replace"} THEN {}
+  ELSE (IF m.stack \in {"replace", "replace_ref"}
+           /\ ((e.ev = "delete" /\ e.n # st.nc) \/ (e.ev = "insert" /\ e.o # st.oc))
+        THEN {"carried_exact"} ELSE {})
+       \cup (IF m.stack \in {"compact_replace", "compact_replace_ref"}
+                /\ (st.oc # st.runO \/ st.nc # st.runN)
+             THEN {"run_split"} ELSE {})
 
 (* clauses decided when the call returns                                    *)
 FinalViol(m, st, p, r) ==
@@ -57,8 +70,10 @@ FinalViol(m, st, p, r) ==
                    Cardinality({j \in 0..(st.segs[i][3] - 1) :
                        At(m.old, st.segs[i][1] + j) \in CommonUnique(oldR, newR)})])
   IN SRetViol(st, r.ok, r.err, m.stack \notin {"nofinish", "replace_nofinish", "replace_nofinish_nr"})
-     \cup (IF clean /\ lcsOk /\ m.fuel = -2 /\ m.alg \in {"myers", "lcs"}
-              /\ D # N + M - 2 * L
+     \* C03 is a statement about the reported totals: it is judged whenever the call returned
+     \* normally (no injected error), whether or not the stream is a valid script
+     \cup (IF ~st.failed /\ r.ok /\ lcsOk /\ m.fuel = -2 /\ m.alg \in {"myers", "lcs"}
+              /\ (st.rdels + st.rinss # N + M - 2 * L \/ st.reqs # L)
            THEN {"minimal"} ELSE {})
      \cup (IF clean /\ anchOk /\ m.fuel = -2 /\ m.alg = "patience"
               /\ covered < AnchorOptimum(oldR, newR)
@@ -107,7 +122,7 @@ TNext ==
             /\ bad' = Flag(IF sl = 0 THEN 0 ELSE Rec[sl].case,
                            IF sl = 0 THEN {} ELSE {"noreturn"}, l)
        [] r.ev \in HookEvs ->
-            /\ bad' = Flag(Rec[sl].case, SViol(s, r) \ NotDemanded(Rec[sl]), l)
+            /\ bad' = Flag(Rec[sl].case, (SViol(s, r) \ NotDemanded(Rec[sl])) \cup AdapterViol(Rec[sl], s, r), l)
             /\ s' = SStep(s, r)
             /\ UNCHANGED <<sl, pr>>
        [] r.ev = "probe" ->
